@@ -34,8 +34,10 @@ LEVEL = "fault_enumeration"
 import geckolib.config as gconfig  # noqa: E402
 from geckolib import GeckoSpaState as S  # noqa: E402
 
+from ..peers import SPA_ADDR as SPA_ADDR_  # noqa: E402
+
 DUR = [1.0, 30.0, 130.0, 400.0]
-PHASES = ["blackout", "rferr", "lossy2", "lossy-verb", "lossy-ping"]
+PHASES = ["blackout", "rferr", "lossy2", "lossy-verb", "lossy-ping", "refused"]
 STARTS = {"before-discovery": 0.0, "mid-discovery": 0.15, "mid-handshake": 0.75, "mid-transfer": 2.0, "steady": 20.0}
 
 
@@ -54,6 +56,24 @@ def leave_bound():
 def _apply_phase(rig, ph):
     peer = rig.peer
     peer.drop_request = None
+    rig.net.fates = None
+    if ph == "refused":
+        # the OS refuses every send of the client (network unreachable): asyncio reports error_received, nothing leaves
+        peer.set_mode("healthy")
+        rig.net.fates = lambda src, dst, data: ["error"] if dst == SPA_ADDR_ else None
+        return
+    if ph == "refused-once":
+        peer.set_mode("healthy")
+        st = {"done": False}
+
+        def once(src, dst, data):
+            if dst == SPA_ADDR_ and not st["done"]:
+                st["done"] = True
+                return ["error"]
+            return None
+
+        rig.net.fates = once
+        return
     if ph == "healthy":
         peer.set_mode("healthy")
     elif ph == "blackout":
@@ -254,6 +274,9 @@ def run(ctx):
     for sn in ("mid-handshake", "steady"):
         for s in (doubles if not ctx.quick else doubles[::3]):
             scripts.append((sn, s))
+    # one single send refused by the OS, at each start point, then healthy
+    for sn in STARTS:
+        scripts.append((sn, (("refused-once", 60.0),)))
     # a connection made while one kind of traffic is lost, then the spa disappears for good measure
     for sn in STARTS:
         for ph in ("lossy-ping", "lossy2", "lossy-verb"):
